@@ -33,7 +33,7 @@ theorem count_set_eq (l : List Bool) (n : Nat) (h : l.getD n true = false) :
 theorem count_replicate_false (n : Nat) : count (List.replicate n false) false = n := by
   induction n with
   | zero => rfl
-  | succ k ih => simp_all [count, List.replicate_succ, List.filter]
+  | succ k ih => simp_all [count, List.replicate_succ]
 
 /-- every hop of a chain walk marks one page that was not marked before -/
 theorem chain_count (db : Db) (n : Nat) (vis : List Bool) (acc : Rope) (rope : Rope) (vis' : List Bool)
@@ -101,7 +101,7 @@ theorem parse_pageSz (file : Bytes) (db : Db) (h : parse file = some db) :
   rename_i _ _ _ hps
   injection h with h
   subst h
-  simp only [Bool.not_eq_true, Bool.not_eq_false] at hps
+  simp only [Bool.not_eq_true] at hps
   refine ⟨?_, rfl⟩
   simp only
   unfold pageSizeOK at hps
